@@ -48,6 +48,7 @@ class Ctx:
         self.inconclusive = []
         self.case = None  # case being executed (for violate())
         self._vkeys = {}
+        self.reach = {}
 
     # --- recording -------------------------------------------------------
     def ev(self, clause, n=1):
@@ -107,6 +108,7 @@ class Ctx:
             "evaluations": self.evaluations,
             "harness_errors": self.harness_errors,
             "inconclusive": self.inconclusive,
+            "reach": _reach_dump(),
         }
 
     def merge(self, d):
@@ -130,6 +132,17 @@ class Ctx:
         self.evaluations += d["evaluations"]
         self.harness_errors += d["harness_errors"]
         self.inconclusive += d["inconclusive"]
+        for k, v in (d.get("reach") or {}).items():
+            self.reach.setdefault(k, set()).update(v)
+
+
+def _reach_dump():
+    try:
+        from . import reach
+
+        return reach.dump()
+    except Exception:  # noqa: BLE001
+        return {}
 
 
 def run_cases(ctx, mod, cases):
